@@ -250,8 +250,9 @@ def observe_api(c, r_):
     o["yuk_flag"] = "Error" in err and "invalid Yukawa type" in err
     o["warn_ind"] = "Warning" in err or r_.get("warning") == "1"
     o["prob_ind"] = r_.get("problem") == "1" or "Problem" in err or "tachyon" in err
-    o["msg"] = (C.unesc(r_.get("what", "-")) + " | " + err + " | " + probs)[-300:]
-    o["text"] = C.unesc(r_.get("what", "-")) + " | " + err + " | " + probs
+    what = C.unesc(r_.get("what", "-")) + C.unesc(r_.get("amuwhat", "-"))
+    o["msg"] = (what + " | " + err + " | " + probs)[-300:]
+    o["text"] = what + " | " + err + " | " + probs
     o["mcha0"] = r_.get("mcha0")
     return o
 
@@ -365,10 +366,12 @@ def judge(c, o):
                 continue
             if is_c and model == "MSSM" and o["refused"]:
                 continue        # the C interface reports only the error code / NaN when it refuses
+            if o["refused"] and "res" not in d.paths and any("res" in e.paths for e in dset):
+                continue        # refused at the setup (resummed spectrum); the other spectrum is never built
             if o["refused"] and d.also and "tachyon" not in text:
                 continue        # refused as negative soft mass^2, the other documented rule
             if ("%s tachyon" % d.sector) not in text:
-                fail("tachyon-not-flagged", "the %s state is tachyonic (%s) but '%s tachyon' is not reported" % (d.sector, d.doc, d.sector))
+                fail("tachyon-not-flagged" if o["refused"] else "tachyon-not-flagged-in-result", "the %s state is tachyonic (%s) but '%s tachyon' is not reported" % (d.sector, d.doc, d.sector))
     # ---- invariants of the statement, on every run ---------------------------
     if cli:
         nonzero = o["rc"] != 0
